@@ -841,6 +841,11 @@ func (fr *Frame) applyMods(st, pre *State, mods []modLoc, pos token.Pos) {
 		// H4 patch: ghost globals (ghostXxx variables of a zz_verif file, e.g. the clock-reading counter) are not subject to
 		// the frame check: ghost state may advance in any function without every contract having to list it.
 		isGhostGlobal := vc.eng.isGhostRoot(m.root)
+		// the synthetic package initialiser writes every package global by definition and is nobody's callee (Go forbids
+		// calling it), so no caller relies on its frame: callee effects on globals are not checked against it
+		if strings.HasPrefix(m.root, "G|") && vc.fn != nil && vc.fn.Synthetic != "" && vc.fn.Name() == "init" {
+			isGhostGlobal = true
+		}
 		if fr.top && fr.contract != nil && vc.dry == 0 && !vc.noFrame && !isGhostGlobal {
 			if m.whole {
 				ok := false
@@ -855,7 +860,9 @@ func (fr *Frame) applyMods(st, pre *State, mods []modLoc, pos token.Pos) {
 			} else {
 				// a location whose base object is nil denotes no memory at all (the callee cannot write it)
 				g := m.guard
-				if m.base != "" {
+				// (globals have the pseudo-base "0": the exemption must not apply to them, or a callee's effect on a
+				// global - e.g. a verif* ghost trace - is never checked against the caller's own modifies clause)
+				if m.base != "" && !strings.HasPrefix(m.root, "G|") {
 					nz := not(eq(m.base, "0"))
 					if g == "" {
 						g = nz
